@@ -1708,6 +1708,33 @@ fn lower_expr_with_args(
                             astptr,
                         })
                     }
+                    // `t.1.0`: the lexer reads `1.0` as one float token; split it back into
+                    // two tuple indices.
+                    cst::Expr::FloatExpr(float_expr) => {
+                        let text = float_expr
+                            .value()
+                            .map(|t| t.to_string())
+                            .unwrap_or_default();
+                        let indices = text.split_once('.').and_then(|(a, b)| {
+                            Some((a.parse::<usize>().ok()?, b.parse::<usize>().ok()?))
+                        });
+                        let Some((outer, inner)) = indices else {
+                            ctx.push_error(
+                                Some(float_expr.syntax().text_range()),
+                                format!("Invalid tuple index: {}", text),
+                            );
+                            return None;
+                        };
+                        Some(ast::Expr::EProj {
+                            tuple: Box::new(ast::Expr::EProj {
+                                tuple: Box::new(lhs),
+                                index: outer,
+                                astptr,
+                            }),
+                            index: inner,
+                            astptr,
+                        })
+                    }
                     cst::Expr::IdentExpr(ident_expr) => {
                         let Some(token) = ident_expr.path().and_then(|p| p.ident_tokens().last())
                         else {
